@@ -335,16 +335,23 @@ class LDMService:
         with self._lock:
             self.data_provider_its_aid.discard(provider_data_id)
 
-    def del_data_provider_its_aid(self, its_aid: int) -> None:
+    def del_data_provider_its_aid(self, its_aid: int) -> bool:
         """
         Method to delete provider ITS_AID from the list of data providers.
 
         Parameters
         ----------
         its_aid : int
+
+        Returns
+        -------
+        bool
+            True if the provider was registered (of two racing deregistrations only one gets True).
         """
         with self._lock:
+            was_registered = its_aid in self.data_provider_its_aid
             self.data_provider_its_aid.discard(its_aid)
+            return was_registered
 
     def query(
         self, data_request: RequestDataObjectsReq
@@ -461,15 +468,21 @@ class LDMService:
             data_consumer_its_aid_copy = self.data_consumer_its_aid.copy()
         return data_consumer_its_aid_copy
 
-    def del_data_consumer_its_aid(self, its_aid: int) -> None:
+    def del_data_consumer_its_aid(self, its_aid: int) -> bool:
         """
         Method to delete data consumer ITS_AID from the list of data consumers.
 
         Parameters
         ----------
         its_aid : int
+
+        Returns
+        -------
+        bool
+            True if the consumer was registered (of two racing deregistrations only one gets True).
         """
         with self._lock:
+            was_registered = its_aid in self.data_consumer_its_aid
             self.data_consumer_its_aid.discard(its_aid)
             # The consumer's subscriptions end with its registration
             for subscription in [
@@ -478,6 +491,7 @@ class LDMService:
             ]:
                 self.subscriptions.remove(subscription)
                 self.last_checked_subscriptions_time.pop(subscription, None)
+            return was_registered
 
     def delete_subscription(self, subscription_id: int) -> bool:
         """
